@@ -180,7 +180,12 @@ def run_c03(ctx, replay=None):
             scripts.append({"id": len(scripts), "cfg": {"mode": "flips"}, "steps": []})
         nstore = 40 if quick else 160
         for store in ("mm", "acct"):
-            pick = _stratified(ctx, cases, nstore)
+            pool = cases
+            if store == "acct":
+                # in an account group the group key IS the owner's member key: the two symbolic names
+                # alias one key there, so terms signed with either are not classifiable by name
+                pool = [c for c in cases if c[1][0]["a"]["sig"]["by"] not in ("grp", "memV")]
+            pick = _stratified(ctx, pool, nstore)
             scripts.append({"id": len(scripts), "cfg": {"mode": "store", "store": store},
                             "steps": [c[1][0] for c in pick]})
     byid = {s["id"]: s for s in scripts}
